@@ -1050,3 +1050,36 @@ def list_push_rules(ctx):
                       "overwrites next_chunk): every further unreclaimable chunk is dropped and never destroyed", fn.where(c), fn=fn)
         ctx.rule("STAMP.handback-chain", "stamp-it: chunks that could not be reclaimed by the last leaver are handed back to the global list as a whole chain")
         ctx.check(bool(calls), "STAMP.handback-chain", S + "#hands-back", "unreclaimable chunks are handed back", "unreclaimable chunks are never handed back to the global list", fn.where(), fn=fn)
+
+
+def epoch_adopt_resync(ctx):
+    """a control block that is taken over (fresh or adopted from an exited thread) is brought in line with the global epoch, and so is the
+    THREAD-LOCAL retire-slot index that belongs to it"""
+    rid = "EBR.adopt-resync"
+    ctx.rule(rid, "generic_epoch_based::thread_data::acquire_control_block: on every path from the acquisition of the control block to the return, the "
+                  "block's local_epoch is stored and the thread-local local_epoch_idx is assigned from that same freshly loaded global epoch "
+                  "(unconditionally): local_epoch lives in the block and survives its previous owner, local_epoch_idx belongs to the thread and starts at "
+                  "0 - if the assignment is skipped when the adopted block already holds the current epoch, the thread files its retired nodes under the "
+                  "wrong epoch slot and they are freed up to two epochs early")
+    P = "xenium::reclamation::generic_epoch_based::thread_data::acquire_control_block"
+    for fn in flow._shapes(ctx, P):
+        acq = [e for b, i, e, n in fn.events() if n["k"] == "call" and n.get("callee", "").endswith("::acquire_entry")]
+        if not acq:
+            ctx.broken.append("acquire_control_block: acquire_entry call not found")
+            continue
+        idx_defs = []
+        for b, i, e, n in fn.events():
+            if n["k"] == "bin" and n.get("op") == "=":
+                k = fn.kids(e)
+                if fn.nodes[k[0]]["k"] == "member" and fn.nodes[k[0]].get("leaf") == "local_epoch_idx" and flow.has_src(fn, k[1], "load:global_epoch"):
+                    idx_defs.append(e)
+        st = [a["nid"] for a in fn.atomics() if a["kind"] == "store" and a["field"].endswith("::local_epoch") and flow.has_src(fn, fn.kids(a["nid"])[1], "load:global_epoch")]
+        ok1, p1 = (flow.always_after(fn, acq[0], idx_defs) if idx_defs else (False, []))
+        ok2, p2 = (flow.always_after(fn, acq[0], st) if st else (False, []))
+        ctx.check(ok1, rid, P + "#local_epoch_idx", "local_epoch_idx is re-derived from the global epoch on every path",
+                  "there is a path from acquire_entry() to the return on which the thread-local local_epoch_idx is not assigned from the global epoch: a thread that adopts "
+                  "a block whose local_epoch already equals the global epoch keeps index 0 and retires into the wrong epoch slot (nodes freed while a guard from the "
+                  "retirement epoch is live)", fn.where(acq[0]), fn=fn, path=flow.describe_path(fn, p1))
+        ctx.check(ok2, rid, P + "#local_epoch", "the block's local_epoch is stored from the global epoch on every path",
+                  "there is a path from acquire_entry() to the return on which the adopted block's local_epoch is not set to the global epoch", fn.where(acq[0]), fn=fn,
+                  path=flow.describe_path(fn, p2))
